@@ -282,12 +282,17 @@ def run(ctx):
         chk.ok(R3, REPACK, norm(por[0]), detail='each object is read through a reader bounded by its own row (offset, length): unreferenced bytes cannot be carried over')
     else:
         chk.bad(R3, REPACK, 'PackedObjectReader(read_pack, offset, length)', 'objects are not copied through a reader bounded by the offset/length columns of their own row', where=f'{rp.module.relpath}:{loop.lineno}')
-    # the tuple unpacking order matches the SELECT
-    fields_ok = len(tvars) == len(cols) and all((c == v) or (c == 'id' and 'id' in v) or (c == 'compressed' and 'compressed' in v) for c, v in zip(cols, tvars))
-    if fields_ok:
-        chk.ok(R3, REPACK, f'{tvars} <- {cols}', detail='loop variables match the selected columns positionally')
+    # the row variables are used in the role of their column (positional unpacking): should_compress gets the row's own flag/length/size
+    var_of = dict(zip(cols, tvars)) if len(cols) == len(tvars) and len(set(tvars)) == len(tvars) else {}
+    sc = [c for c in ast.walk(loop) if isinstance(c, ast.Call) and norm(c.func) == 'should_compress']
+    roles_ok = bool(var_of) and len(sc) == 1
+    if roles_ok:
+        kws = {k.arg: norm(k.value) for k in sc[0].keywords}
+        roles_ok = kws.get('source_compressed') == var_of.get('compressed') and kws.get('source_length') == var_of.get('length') and kws.get('source_size') == var_of.get('size')
+    if roles_ok:
+        chk.ok(R3, REPACK, f'{tvars} <- {cols}', detail='row variables are used in the role of the column at their position (reader bounds, should_compress arguments)')
     else:
-        chk.bad(R3, REPACK, f'{tvars} <- {cols}', 'the loop variables do not match the selected columns positionally', where=f'{rp.module.relpath}:{loop.lineno}')
+        chk.bad(R3, REPACK, f'{tvars} <- {cols}', 'the row variables are not used in the role of the column they are unpacked from (compressed flag / length / size passed to should_compress)', where=f'{rp.module.relpath}:{loop.lineno}')
 
     # ---------------------------------------------------------------- R4
     early = None
